@@ -94,7 +94,7 @@ pub proof fn lemma_exp_len(p: Seq<u8>, off: int, barrier: int, lowest: int, refs
 
 pub proof fn lemma_walk_bounds(p: Seq<u8>, off: int, barrier: int, lowest: int, refs: int, nlen: int, fend: Option<int>)
     requires barrier <= p.len(), fend.is_some() ==> 0 < fend.unwrap() <= p.len(),
-    ensures walk(p, off, barrier, lowest, refs, nlen, fend) matches Some(e) ==> (0 < e <= p.len() && (fend.is_some() ==> e == fend.unwrap()) && (fend.is_none() ==> e > lowest)),
+    ensures walk(p, off, barrier, lowest, refs, nlen, fend) matches Some(e) ==> (0 < e <= p.len() && (fend.is_some() ==> e == fend.unwrap()) && (fend.is_none() ==> e > lowest && e > off)),
     decreases refs, p.len() - off
 {
     if !(0 <= lowest <= off && refs >= 0) {}
